@@ -202,6 +202,7 @@ def run_shard(shard, env):
         rnd = random.Random("%s/c09/%s" % (shard["seed"], shard["index"]))
         for _ in range(shard["pairs"]):
             cfg = ih.gen_config(rnd, definite=rnd.random() < 0.9)
+            cfg.pop("reuse", None)  # (render-data reuse is C08's subject; here renders are counted per iterator)
             cfg["loops"] = rnd.choice([2, 3, -1, -1, 1])
             n = cfg["n"] or 3
             cfg["cache_on"] = rnd.choice([True, True, n, n + 1, 100, n - 1])
